@@ -130,9 +130,6 @@ func (fs *FS) setFile(path string, file FileRecord) error {
 	if err == nil {
 		err = commitTxn(txn)
 	}
-	if err == nil && file == nil {
-		fs.noteUnlink(path)
-	}
 	return err
 }
 
@@ -158,6 +155,16 @@ func (fs *FS) setFileTxn(txn Transaction, path string, file FileRecord, contents
 		panic("Contents must not be nil for regular file")
 	}
 
+	if file == nil {
+		// inside the transaction that removes it, the name stops referring to its file
+		txn.SetHandler(path, nil, nil, OpHandlerFunc(func(_ Transaction, result OpResult) error {
+			if result.Err == nil {
+				fs.noteUnlink(path)
+			}
+			return nil
+		}))
+		return nil
+	}
 	txn.Set(path, file, contents)
 	return nil
 }
@@ -217,27 +224,47 @@ func (f *fileData) save() error {
 // saveOpen writes back changes made through an open file handle.
 // If the file was removed or renamed after it was opened, its name is not created again.
 func (f *fileData) saveOpen() error {
-	if f.fs.unlinkCount(f.path) != f.unlinks {
-		// the name was removed, renamed or replaced since: whatever is there now is not this file
-		return nil
+	var contents blob.Blob
+	if f.Mode().IsRegular() {
+		var err error
+		contents, err = f.Data()
+		if err != nil {
+			return err
+		}
 	}
-	current, err := f.fs.getFile(f.path)
-	if errors.Is(err, hackpadfs.ErrNotExist) || errors.Is(err, hackpadfs.ErrNotDir) {
-		return nil
-	}
+	// one transaction looks the name up and writes back, so that a Remove or Rename of another goroutine can not
+	// come between the check and the write
+	txn, err := f.fs.store.Transaction(TransactionOptions{Mode: TransactionReadWrite})
 	if err != nil {
 		return err
 	}
-	// the handle owns the contents; mode and modification time are the file's own unless changed through this handle
-	// (a Chmod or Chtimes of the name since the handle was opened must survive a Write)
-	meta := currentMeta{FileRecord: f, mode: current.Mode(), modTime: current.ModTime()}
-	if f.modeOverride != nil {
-		meta.mode = *f.modeOverride
+	txn.GetHandler(f.path, OpHandlerFunc(func(txn Transaction, current OpResult) error {
+		if current.Err != nil || current.Record == nil || f.fs.unlinkCount(f.path) != f.unlinks {
+			// the name was removed, renamed or replaced since: whatever is there now is not this file
+			return nil
+		}
+		// the handle owns the contents; mode and modification time are the file's own unless changed through this
+		// handle (a Chmod or Chtimes of the name since the handle was opened must survive a Write)
+		meta := currentMeta{FileRecord: f, mode: current.Record.Mode(), modTime: current.Record.ModTime()}
+		if f.modeOverride != nil {
+			meta.mode = *f.modeOverride
+		}
+		if !f.modTimeOverride.IsZero() {
+			meta.modTime = f.modTimeOverride
+		}
+		txn.Set(f.path, meta, contents)
+		return nil
+	}))
+	results, err := txn.Commit(context.Background())
+	if err != nil {
+		return err
 	}
-	if !f.modTimeOverride.IsZero() {
-		meta.modTime = f.modTimeOverride
+	for _, result := range results {
+		if result.Err != nil && !errors.Is(result.Err, hackpadfs.ErrNotExist) {
+			return result.Err
+		}
 	}
-	return f.fs.setFile(f.path, meta)
+	return nil
 }
 
 // currentMeta is a file's record with the given mode and modification time
